@@ -15,26 +15,27 @@ _get_from_identity_map_`, `Query.for_update, get, first, __getitem__, _actual_fe
 
 Two groups of harnesses.
 
-E-harnesses (`sqlite_lk0..3_ro/_wr`, `pg_lk0..3`; one per lookup style - and per read-only/writing session for
-SQLite - so that they run in parallel).  Symbolic: the option
+E-harnesses (`sqlite_lk0..3_{ro,wr}_{opt,pes}`, `pg_lk0..3`; one per lookup style - and, for SQLite, per read-only /
+writing and optimistic / non-optimistic ("pes") session, the flag then being fixed - so that they run in parallel).  Symbolic: the option
 flags `fu` (locking lookup or plain lookup), `nw` (nowait), `sk` (skip_locked), the session flags `ser`
 (serializable), `opt` (optimistic), `imm` (immediate), `wr` (the session writes the object: `o.a = o.a + 1`), `mid`
 (0 nothing / 1 an explicit commit() between the lookup and the write / 2 the body raises at its end, so the session
 rolls back), `pre` (0 nothing / 1 a plain `T.get(id=1)`
 before the lookup, so the object is cached but NOT locked / 2 the same lookup without for_update before it, so
-`cache.query_results` is warm) and, SQLite only, `rival` (a second session run in another thread right after the
+`cache.query_results` is warm / 3 an EARLIER session ran the same locking lookup without nowait/skip_locked, so the
+database-wide SQL caches hold that statement) and, SQLite only, `rival` (a second session run in another thread right after the
 lookup while the first is still open: 0 none / 1 optimistic writer / 2 non-optimistic writer / 3 get_for_update
 writer).  The flags are decided one by one under CrossHair's tracer (explicit branching) and the whole real pipeline
 then runs under `NoTracing` with the chosen values: every explored path is ONE concrete run of the real code with an
 option combination chosen by the solver, and "Confirmed over all paths" means every combination in the bound was
-run and satisfied the reference (fault-enumeration level; counted: 1440 distinct combinations per SQLite harness, 720
+run and satisfied the reference (fault-enumeration level; counted: 960 distinct combinations per SQLite harness, 960
 per PostgreSQL harness in the quick tier, each explored exactly once).  Reason: the traced query translator does not
 finish one path in 150 s (measured), a path under NoTracing costs ~15 ms idle / ~65 ms on the loaded machine.
 Every path starts from cold translator / SQL-text caches (`_cold`): pony keeps per-location state across sessions - a
 cached translator remembers having built a FOR UPDATE statement and stops caching query results - so with warm caches
 the outcome of a path depended on the order in which CrossHair explored the paths (seen with a canary mutant).
 Thorough tier (C35_THOROUGH=1): `mid` 3 = flush() after the write and the lookup again, 4 = commit() and the lookup
-again; `pre` 3 = a plain select of all rows, 4 = a locking lookup of another style first (4000 / 2000 combinations).
+again; `pre` 4 = a plain select of all rows, 5 = a locking lookup of another style first in the same session.
 Lookup styles: 0 `T.get(id=1)` / `T.get_for_update(id=1, nowait=, skip_locked=)`; 1 `T.get(lambda x: x.id == 1)` /
 `T.get_for_update(lambda ..., nowait=, skip_locked=)`; 2 `select(x for x in T if x.id == 1)[.for_update(nw, sk)][:]`;
 3 `T.select(lambda x: x.a > 0)[.for_update(nowait=, skip_locked=)].first()` (ORDER BY + LIMIT before the lock clause).
@@ -96,7 +97,7 @@ from engine.ch import ok
 from engine import fakedb as F
 
 THOROUGH = os.environ.get('C35_THOROUGH') == '1'
-PRE_MAX = 4 if THOROUGH else 2          # thorough: pre 3 = plain select of all rows, 4 = a locking lookup of another style first
+PRE_MAX = 5 if THOROUGH else 3          # thorough: pre 4 = plain select of all rows, 5 = a locking lookup of another style first
 MID_MAX = 4 if THOROUGH else 2          # thorough: mid 3 = flush() after the write and a second lookup, 4 = commit() then the lookup again
 RIVAL_MAX = 3
 
@@ -242,12 +243,16 @@ def _program(db, lk, fu, nw, sk, ser, opt, imm, wr, mid, pre, rival):
     from pony.orm import db_session, commit, flush, select
     T = db.T
     obs = dict(typeerror=False, in_fu=None, in_fu_after_commit=None, rival=None, marks={})
+    if pre == 3:        # an EARLIER session ran the same locking lookup without options (pony caches SQL per program location across sessions)
+        with db_session:
+            _lookup(T, lk, True, False, False)
+    obs['marks']['start'] = rec.n
     with db_session(serializable=ser, optimistic=opt, immediate=imm):
         cache = db._get_cache()
         if pre == 1: T.get(id=1)
         elif pre == 2: _lookup(T, lk, False, False, False)
-        elif pre == 3: select(x for x in T)[:]
-        elif pre == 4: _lookup(T, (lk + 1) % 4, True, False, False)
+        elif pre == 4: select(x for x in T)[:]
+        elif pre == 5: _lookup(T, (lk + 1) % 4, True, False, False)
         obs['marks']['lookup'] = n0 = rec.n
         try:
             o = _lookup(T, lk, fu, nw, sk)
@@ -306,7 +311,7 @@ def _must_query(window, fu, mid, pre):
     (then the cache may answer).  window 0 = the lookup, 1 = the repeated lookup of mid 3 (after flush(): still locked
     by the first one) / mid 4 (after commit(): the lock is gone)."""
     if not fu: return False
-    return pre != 4 if window == 0 else mid == 4
+    return pre != 5 if window == 0 else mid == 4
 
 
 def _judge_common(obs, why, fu, nw, sk, opt, ser, wr, mid, pre, updates, crit_text):
@@ -317,7 +322,7 @@ def _judge_common(obs, why, fu, nw, sk, opt, ser, wr, mid, pre, updates, crit_te
         why.append('TypeError for a valid option combination'); return False
     if not obs.get('got'): why.append('lookup returned nothing'); return False
     # L5 / P4
-    locked0 = fu or pre == 4          # (pre 4, thorough tier: a locking lookup of another style came first)
+    locked0 = fu or pre == 5          # (pre 5, thorough tier: a locking lookup of another style came first in this session)
     if obs['in_fu'] != locked0: why.append('object in cache.for_update = %r, locked by a lookup = %r' % (obs['in_fu'], locked0))
     if mid in (1, 4) and obs['in_fu_after_commit'] != (False, 0):
         why.append('cache.for_update after commit(): %r' % (obs['in_fu_after_commit'],))
@@ -339,13 +344,13 @@ def _judge_common(obs, why, fu, nw, sk, opt, ser, wr, mid, pre, updates, crit_te
 
 def _judge_sqlite(db, obs, why, lk, fu, nw, sk, ser, opt, imm, wr, mid, pre, rival):
     log = rec.log
-    main = [e for e in log if e.phase == 0 and e.con is not None]
+    m = obs['marks']
+    main = [e for e in log if e.phase == 0 and e.con is not None and e.n > m['start']]       # (pre 3: the earlier session is not judged here)
     cons = set(id(e.con) for e in main)
     if len(cons) > 1: why.append('first session used %d connections' % len(cons))
     updates = [e for e in main if _is_update(e)]
     for e in log:
         if e.op == 'execute' and 'FOR UPDATE' in (e.detail or '').upper(): why.append('L7 FOR UPDATE in SQLite text')
-    m = obs['marks']
     sent_nothing = m['lookup_end'] == m['lookup']
     if not _judge_common(obs, why, fu, nw, sk, opt, ser, wr, mid, pre, updates, 'AND "a" = ?'):
         if fu and nw and sk and not sent_nothing: why.append('something was sent for the rejected lookup')
@@ -360,8 +365,8 @@ def _judge_sqlite(db, obs, why, lk, fu, nw, sk, ser, opt, imm, wr, mid, pre, riv
     for e in main:
         if not _is_select_T(e): continue
         in_lookup = any(a < e.n <= b for a, b in windows)
-        in_pre4 = pre == 4 and e.n <= m['lookup']
-        need = session_tx or (fu and in_lookup) or in_pre4
+        in_pre5 = pre == 5 and e.n <= m['lookup']
+        need = session_tx or (fu and in_lookup) or in_pre5
         if not need: continue
         i = _tx_open_events(main, e.n, begin)
         held, _, in_tx, _ = rec.snap[e.n]
@@ -382,7 +387,7 @@ def _judge_sqlite(db, obs, why, lk, fu, nw, sk, ser, opt, imm, wr, mid, pre, riv
     # L4: the rival
     if rival:
         other = [e for e in log if e.phase == 1]
-        holding = session_tx or fu or pre == 4
+        holding = session_tx or fu or pre == 5
         wrote = [e for e in other if e.op == 'execute' and re.match(r'\s*(BEGIN|UPDATE|INSERT|DELETE)', e.detail or '', re.I)]
         if holding:
             if obs['rival'] != 'blocked': why.append('L4 rival while the transaction is open: %s' % obs['rival'])
@@ -412,10 +417,10 @@ _TAIL = re.compile(r'FOR UPDATE( NOWAIT| SKIP LOCKED)?\Z')
 
 
 def _judge_pg(db, obs, why, lk, fu, nw, sk, ser, opt, imm, wr, mid, pre):
-    main = [e for e in rec.log if e.con is not None]
+    m = obs['marks']
+    main = [e for e in rec.log if e.con is not None and e.n > m['start']]       # (pre 3: the earlier session is not judged here)
     if len(set(id(e.con) for e in main)) > 1: why.append('session used several connections')
     updates = [e for e in main if _is_update(e)]
-    m = obs['marks']
     if not _judge_common(obs, why, fu, nw, sk, opt, ser, wr, mid, pre, updates, 'AND "a" = %(p3)s'):
         if fu and nw and sk and m['lookup_end'] != m['lookup']: why.append('something was sent for the rejected lookup')
         return not why
@@ -432,7 +437,7 @@ def _judge_pg(db, obs, why, lk, fu, nw, sk, ser, opt, imm, wr, mid, pre):
             text = (e.detail or '').strip()
             if _is_select_T(e):
                 in_lookup = any(a < e.n <= b for a, b in windows)
-                locking = (fu and in_lookup) or (pre == 4 and e.n <= m['lookup'])
+                locking = (fu and in_lookup) or (pre == 5 and e.n <= m['lookup'])
                 if locking:
                     mt = _TAIL.search(text)
                     tail = mt.group(0) if mt else None
@@ -469,7 +474,7 @@ def _run(kind, lk, fu, nw, sk, ser, opt, imm, wr, mid, pre, rival):
         # "wait or FAIL": an unlocked optimistic session that meets a value a rival legitimately committed in the meantime may
         # refuse to go on (UnrepeatableReadError / OptimisticCheckError) - as long as it sent no UPDATE after the rival's commit
         rc = [x.n for x in rec.log if x.phase == 1 and x.op == 'commit']
-        holding = ser or imm or not opt or fu or pre == 4
+        holding = ser or imm or not opt or fu or pre == 5
         if (kind == 'sqlite' and rival and rc and not holding and type(e).__name__ in ('UnrepeatableReadError', 'OptimisticCheckError')
                 and not [x for x in rec.log if x.phase == 0 and _is_update(x) and x.n > rc[0]]):
             return _locks_balanced(db, why)
@@ -506,7 +511,7 @@ def _e(kind, lk, fu, nw, sk, ser, opt, imm, wr, mid, pre, rival=0):
     imm = True if imm else False
     wr = True if wr else False
     mid = 0 if mid == 0 else (1 if mid == 1 else (2 if mid == 2 else (3 if mid == 3 else 4)))
-    pre = 0 if pre == 0 else (1 if pre == 1 else (2 if pre == 2 else (3 if pre == 3 else 4)))
+    pre = 0 if pre == 0 else (1 if pre == 1 else (2 if pre == 2 else (3 if pre == 3 else (4 if pre == 4 else 5))))
     rival = 0 if rival == 0 else (1 if rival == 1 else (2 if rival == 2 else 3))
     with NoTracing():
         return _run(kind, lk, fu, nw, sk, ser, opt, imm, wr, mid, pre, rival)
@@ -514,88 +519,168 @@ def _e(kind, lk, fu, nw, sk, ser, opt, imm, wr, mid, pre, rival=0):
 
 E_HARNESSES = []
 
-# One explicit function per dialect x lookup style (x read-only / writing session for SQLite, where the rival dimension
-# makes the product four times larger), so that they run in parallel worker processes.
+# One explicit function per dialect x lookup style (x read-only / writing, optimistic / non-optimistic session for SQLite,
+# where the rival dimension makes the product four times larger), so that they run in parallel worker processes.
 
 
-def sqlite_lk0_ro(fu: bool, nw: bool, sk: bool, ser: bool, opt: bool, imm: bool, mid: int, pre: int, rival: int) -> bool:
+def sqlite_lk0_ro_opt(fu: bool, nw: bool, sk: bool, ser: bool, imm: bool, mid: int, pre: int, rival: int) -> bool:
     """
     pre: fu or not (nw or sk)
     pre: 0 <= mid <= MID_MAX and 0 <= pre <= PRE_MAX and 0 <= rival <= RIVAL_MAX
     post: _
     """
-    return ok(_e('sqlite', 0, fu, nw, sk, ser, opt, imm, False, mid, pre, rival))
-E_HARNESSES.append('sqlite_lk0_ro')
+    return ok(_e('sqlite', 0, fu, nw, sk, ser, True, imm, False, mid, pre, rival))
+E_HARNESSES.append('sqlite_lk0_ro_opt')
 
 
-def sqlite_lk0_wr(fu: bool, nw: bool, sk: bool, ser: bool, opt: bool, imm: bool, mid: int, pre: int, rival: int) -> bool:
+def sqlite_lk0_ro_pes(fu: bool, nw: bool, sk: bool, ser: bool, imm: bool, mid: int, pre: int, rival: int) -> bool:
     """
     pre: fu or not (nw or sk)
     pre: 0 <= mid <= MID_MAX and 0 <= pre <= PRE_MAX and 0 <= rival <= RIVAL_MAX
     post: _
     """
-    return ok(_e('sqlite', 0, fu, nw, sk, ser, opt, imm, True, mid, pre, rival))
-E_HARNESSES.append('sqlite_lk0_wr')
+    return ok(_e('sqlite', 0, fu, nw, sk, ser, False, imm, False, mid, pre, rival))
+E_HARNESSES.append('sqlite_lk0_ro_pes')
 
 
-def sqlite_lk1_ro(fu: bool, nw: bool, sk: bool, ser: bool, opt: bool, imm: bool, mid: int, pre: int, rival: int) -> bool:
+def sqlite_lk0_wr_opt(fu: bool, nw: bool, sk: bool, ser: bool, imm: bool, mid: int, pre: int, rival: int) -> bool:
     """
     pre: fu or not (nw or sk)
     pre: 0 <= mid <= MID_MAX and 0 <= pre <= PRE_MAX and 0 <= rival <= RIVAL_MAX
     post: _
     """
-    return ok(_e('sqlite', 1, fu, nw, sk, ser, opt, imm, False, mid, pre, rival))
-E_HARNESSES.append('sqlite_lk1_ro')
+    return ok(_e('sqlite', 0, fu, nw, sk, ser, True, imm, True, mid, pre, rival))
+E_HARNESSES.append('sqlite_lk0_wr_opt')
 
 
-def sqlite_lk1_wr(fu: bool, nw: bool, sk: bool, ser: bool, opt: bool, imm: bool, mid: int, pre: int, rival: int) -> bool:
+def sqlite_lk0_wr_pes(fu: bool, nw: bool, sk: bool, ser: bool, imm: bool, mid: int, pre: int, rival: int) -> bool:
     """
     pre: fu or not (nw or sk)
     pre: 0 <= mid <= MID_MAX and 0 <= pre <= PRE_MAX and 0 <= rival <= RIVAL_MAX
     post: _
     """
-    return ok(_e('sqlite', 1, fu, nw, sk, ser, opt, imm, True, mid, pre, rival))
-E_HARNESSES.append('sqlite_lk1_wr')
+    return ok(_e('sqlite', 0, fu, nw, sk, ser, False, imm, True, mid, pre, rival))
+E_HARNESSES.append('sqlite_lk0_wr_pes')
 
 
-def sqlite_lk2_ro(fu: bool, nw: bool, sk: bool, ser: bool, opt: bool, imm: bool, mid: int, pre: int, rival: int) -> bool:
+def sqlite_lk1_ro_opt(fu: bool, nw: bool, sk: bool, ser: bool, imm: bool, mid: int, pre: int, rival: int) -> bool:
     """
     pre: fu or not (nw or sk)
     pre: 0 <= mid <= MID_MAX and 0 <= pre <= PRE_MAX and 0 <= rival <= RIVAL_MAX
     post: _
     """
-    return ok(_e('sqlite', 2, fu, nw, sk, ser, opt, imm, False, mid, pre, rival))
-E_HARNESSES.append('sqlite_lk2_ro')
+    return ok(_e('sqlite', 1, fu, nw, sk, ser, True, imm, False, mid, pre, rival))
+E_HARNESSES.append('sqlite_lk1_ro_opt')
 
 
-def sqlite_lk2_wr(fu: bool, nw: bool, sk: bool, ser: bool, opt: bool, imm: bool, mid: int, pre: int, rival: int) -> bool:
+def sqlite_lk1_ro_pes(fu: bool, nw: bool, sk: bool, ser: bool, imm: bool, mid: int, pre: int, rival: int) -> bool:
     """
     pre: fu or not (nw or sk)
     pre: 0 <= mid <= MID_MAX and 0 <= pre <= PRE_MAX and 0 <= rival <= RIVAL_MAX
     post: _
     """
-    return ok(_e('sqlite', 2, fu, nw, sk, ser, opt, imm, True, mid, pre, rival))
-E_HARNESSES.append('sqlite_lk2_wr')
+    return ok(_e('sqlite', 1, fu, nw, sk, ser, False, imm, False, mid, pre, rival))
+E_HARNESSES.append('sqlite_lk1_ro_pes')
 
 
-def sqlite_lk3_ro(fu: bool, nw: bool, sk: bool, ser: bool, opt: bool, imm: bool, mid: int, pre: int, rival: int) -> bool:
+def sqlite_lk1_wr_opt(fu: bool, nw: bool, sk: bool, ser: bool, imm: bool, mid: int, pre: int, rival: int) -> bool:
     """
     pre: fu or not (nw or sk)
     pre: 0 <= mid <= MID_MAX and 0 <= pre <= PRE_MAX and 0 <= rival <= RIVAL_MAX
     post: _
     """
-    return ok(_e('sqlite', 3, fu, nw, sk, ser, opt, imm, False, mid, pre, rival))
-E_HARNESSES.append('sqlite_lk3_ro')
+    return ok(_e('sqlite', 1, fu, nw, sk, ser, True, imm, True, mid, pre, rival))
+E_HARNESSES.append('sqlite_lk1_wr_opt')
 
 
-def sqlite_lk3_wr(fu: bool, nw: bool, sk: bool, ser: bool, opt: bool, imm: bool, mid: int, pre: int, rival: int) -> bool:
+def sqlite_lk1_wr_pes(fu: bool, nw: bool, sk: bool, ser: bool, imm: bool, mid: int, pre: int, rival: int) -> bool:
     """
     pre: fu or not (nw or sk)
     pre: 0 <= mid <= MID_MAX and 0 <= pre <= PRE_MAX and 0 <= rival <= RIVAL_MAX
     post: _
     """
-    return ok(_e('sqlite', 3, fu, nw, sk, ser, opt, imm, True, mid, pre, rival))
-E_HARNESSES.append('sqlite_lk3_wr')
+    return ok(_e('sqlite', 1, fu, nw, sk, ser, False, imm, True, mid, pre, rival))
+E_HARNESSES.append('sqlite_lk1_wr_pes')
+
+
+def sqlite_lk2_ro_opt(fu: bool, nw: bool, sk: bool, ser: bool, imm: bool, mid: int, pre: int, rival: int) -> bool:
+    """
+    pre: fu or not (nw or sk)
+    pre: 0 <= mid <= MID_MAX and 0 <= pre <= PRE_MAX and 0 <= rival <= RIVAL_MAX
+    post: _
+    """
+    return ok(_e('sqlite', 2, fu, nw, sk, ser, True, imm, False, mid, pre, rival))
+E_HARNESSES.append('sqlite_lk2_ro_opt')
+
+
+def sqlite_lk2_ro_pes(fu: bool, nw: bool, sk: bool, ser: bool, imm: bool, mid: int, pre: int, rival: int) -> bool:
+    """
+    pre: fu or not (nw or sk)
+    pre: 0 <= mid <= MID_MAX and 0 <= pre <= PRE_MAX and 0 <= rival <= RIVAL_MAX
+    post: _
+    """
+    return ok(_e('sqlite', 2, fu, nw, sk, ser, False, imm, False, mid, pre, rival))
+E_HARNESSES.append('sqlite_lk2_ro_pes')
+
+
+def sqlite_lk2_wr_opt(fu: bool, nw: bool, sk: bool, ser: bool, imm: bool, mid: int, pre: int, rival: int) -> bool:
+    """
+    pre: fu or not (nw or sk)
+    pre: 0 <= mid <= MID_MAX and 0 <= pre <= PRE_MAX and 0 <= rival <= RIVAL_MAX
+    post: _
+    """
+    return ok(_e('sqlite', 2, fu, nw, sk, ser, True, imm, True, mid, pre, rival))
+E_HARNESSES.append('sqlite_lk2_wr_opt')
+
+
+def sqlite_lk2_wr_pes(fu: bool, nw: bool, sk: bool, ser: bool, imm: bool, mid: int, pre: int, rival: int) -> bool:
+    """
+    pre: fu or not (nw or sk)
+    pre: 0 <= mid <= MID_MAX and 0 <= pre <= PRE_MAX and 0 <= rival <= RIVAL_MAX
+    post: _
+    """
+    return ok(_e('sqlite', 2, fu, nw, sk, ser, False, imm, True, mid, pre, rival))
+E_HARNESSES.append('sqlite_lk2_wr_pes')
+
+
+def sqlite_lk3_ro_opt(fu: bool, nw: bool, sk: bool, ser: bool, imm: bool, mid: int, pre: int, rival: int) -> bool:
+    """
+    pre: fu or not (nw or sk)
+    pre: 0 <= mid <= MID_MAX and 0 <= pre <= PRE_MAX and 0 <= rival <= RIVAL_MAX
+    post: _
+    """
+    return ok(_e('sqlite', 3, fu, nw, sk, ser, True, imm, False, mid, pre, rival))
+E_HARNESSES.append('sqlite_lk3_ro_opt')
+
+
+def sqlite_lk3_ro_pes(fu: bool, nw: bool, sk: bool, ser: bool, imm: bool, mid: int, pre: int, rival: int) -> bool:
+    """
+    pre: fu or not (nw or sk)
+    pre: 0 <= mid <= MID_MAX and 0 <= pre <= PRE_MAX and 0 <= rival <= RIVAL_MAX
+    post: _
+    """
+    return ok(_e('sqlite', 3, fu, nw, sk, ser, False, imm, False, mid, pre, rival))
+E_HARNESSES.append('sqlite_lk3_ro_pes')
+
+
+def sqlite_lk3_wr_opt(fu: bool, nw: bool, sk: bool, ser: bool, imm: bool, mid: int, pre: int, rival: int) -> bool:
+    """
+    pre: fu or not (nw or sk)
+    pre: 0 <= mid <= MID_MAX and 0 <= pre <= PRE_MAX and 0 <= rival <= RIVAL_MAX
+    post: _
+    """
+    return ok(_e('sqlite', 3, fu, nw, sk, ser, True, imm, True, mid, pre, rival))
+E_HARNESSES.append('sqlite_lk3_wr_opt')
+
+
+def sqlite_lk3_wr_pes(fu: bool, nw: bool, sk: bool, ser: bool, imm: bool, mid: int, pre: int, rival: int) -> bool:
+    """
+    pre: fu or not (nw or sk)
+    pre: 0 <= mid <= MID_MAX and 0 <= pre <= PRE_MAX and 0 <= rival <= RIVAL_MAX
+    post: _
+    """
+    return ok(_e('sqlite', 3, fu, nw, sk, ser, False, imm, True, mid, pre, rival))
+E_HARNESSES.append('sqlite_lk3_wr_pes')
 
 
 def pg_lk0(fu: bool, nw: bool, sk: bool, ser: bool, opt: bool, imm: bool, wr: bool, mid: int, pre: int) -> bool:
